@@ -332,7 +332,12 @@ func otLayoutDeleteGlyphsInplace(buffer *Buffer, filter func(*GlyphInfo) bool) {
 
 			if i+1 < len(buffer.Info) {
 				/* Merge cluster forward. */
+				// Every glyph before i has been deleted: do not let the merge walk back over them
+				// (a run of deleted glyphs sharing a cluster made the deletion quadratic)
+				idx := buffer.idx
+				buffer.idx = i
 				buffer.mergeClusters(i, i+2)
+				buffer.idx = idx
 			}
 
 			continue
